@@ -104,7 +104,13 @@ def net_cfg(net: dict, **over) -> dict:
               maneuver_detection=md, save_filter_steps=net.get("save_filter_steps", False))
     kw.update(over)
     stop = start + timedelta(seconds=(net["nsteps"] + 2) * net["step"])
-    return sk.scenario_cfg(start, stop, net["step"], [eng], **kw)
+    engines = [eng]
+    if net.get("split_engines") and len(scfgs) >= 2 and len(tcfgs) >= 2:
+        # two tasking engines, each with its own sensors and targets (first sensor + first half of the targets / the rest)
+        h = max(1, len(tcfgs) // 2)
+        engines = [sk.engine_cfg(1, tcfgs[:h], scfgs[:1], decision=net["policy"], reward=net["reward"], metrics=metrics, decision_params=dparams),
+                   sk.engine_cfg(2, tcfgs[h:], scfgs[1:], decision=net["policy"], reward=net["reward"], metrics=metrics, decision_params=dparams)]
+    return sk.scenario_cfg(start, stop, net["step"], engines, **kw)
 
 
 # ---------------------------------------------------------------------------------------------
